@@ -69,6 +69,8 @@ pub enum VKind {
     Multi3,
     Multi2Canon,
     Multi3Canon,
+    /// Multi2 plus a second end-of-sequence token
+    Multi2TwoEos,
     B256,
     B256Canon,
     Tik(usize),
@@ -92,6 +94,15 @@ pub fn make_vocab(kind: VKind, alpha: &[u8], foreign: &[u8], sentences: &[Vec<u8
         VKind::Bytes => vocab::bytes_vocab(&a),
         VKind::Multi2 => vocab::multi_vocab(&a, &sub, 2, &sents, true),
         VKind::Multi3 => vocab::multi_vocab(&a, &sub[..sub.len().min(4)], 3, &sents, true),
+        VKind::Multi2TwoEos => {
+            let mut v = vocab::multi_vocab(&a, &sub, 2, &sents, true);
+            let at = v.tokens.len() - 1;
+            v.tokens.insert(at, b"\xFF<eos2>".to_vec());
+            v.eos = v.tokens.len() as u32 - 1;
+            v.extra_eos = vec![v.eos - 1];
+            v.name = format!("{}+eos2", v.name);
+            v
+        }
         VKind::Multi2Canon => vocab::multi_vocab(&a, &sub, 2, &sents, false).canonical(true),
         VKind::Multi3Canon => vocab::multi_vocab(&a, &sub[..sub.len().min(4)], 3, &sents, false).canonical(true),
         VKind::B256 => vocab::b256(),
